@@ -273,7 +273,13 @@ func genCache(t *target, facts map[string]interface{}) error {
 			stub("not found")
 			continue
 		}
-		s := &skel{p: p, fn: fd, callHook: cacheCall, exprHook: cacheExpr, stmtHook: cacheStmt, resTwo: true, nested: true, bindDefers: true, nresults: 2}
+		s := &skel{p: p, fn: fd, callHook: cacheCall, exprHook: cacheExpr, stmtHook: cacheStmt, resTwo: true, nested: true, bindDefers: true, nresults: 2,
+			hs: newHelperSet(), paramType: func(t types.Type) string {
+				if t != nil && t.String() == "string" {
+					return "Str"
+				}
+				return ""
+			}}
 		// signature: string parameters, results (string, error)
 		okSig := fd.Type.Results != nil && len(fd.Type.Results.List) == 2 &&
 			exprText(fd.Type.Results.List[0].Type) == "string" && exprText(fd.Type.Results.List[1].Type) == "error"
@@ -295,10 +301,13 @@ func genCache(t *target, facts map[string]interface{}) error {
 		}
 		fmt.Fprintf(&s.b, "/-- `%s` -/\n", name)
 		fmt.Fprintf(&s.b, "def %s (U : Cache.Unsupported) %s (w : World) : (Str × GoErr) × World :=\n", name, strings.Join(params, " "))
+		head := s.b.String()
+		s.b = strings.Builder{}
 		s.stmts(fd.Body.List, 1, nil)
 		notes = append(notes, s.notes...)
-		rendered[name] = s.b.String()
-		b.WriteString(s.b.String())
+		text := head + strings.Join(s.hs.prelude, "") + s.b.String()
+		rendered[name] = text
+		b.WriteString(text)
 		b.WriteString("\n")
 	}
 	b.WriteString("/-- statements the translator could not render (empty = both functions are inside the subset) -/\n")
